@@ -1,4 +1,5 @@
 import DiscretModel.Model.RoomNode
+import DiscretModel.Lemmas.Room
 /-
 Lemmas about the acceptance of a room definition (C07). Core Lean only.
 -/
@@ -885,5 +886,45 @@ theorem accept_ok {d : Defects} {s s' : RStore} {cand : RoomNode} (h : accept d 
                     rw [hpar] at h
                     simp only [Verdict.ok.injEq] at h
                     exact Or.inr ⟨rfl, r, rfl, h.symm⟩
+
+/-! ### past stability of the admin decisions -/
+
+theorem parseUser_date {n : SRow} {u : User} (h : parseUser n = .ok u) : u.date = n.mdate := by
+  unfold parseUser at h
+  split at h
+  · cases h; rfl
+  · cases h
+
+/-- accepting new admin entries changes no admin decision at a date that precedes all of them -/
+theorem checkNewAdmins_past {old : List SRow} {room room' : RoomT} {l : List SRow}
+    (h : checkNewAdmins old room l = .ok room') (k : Key) (d : Int)
+    (hd : ∀ n ∈ l, isNew old n = true → d < n.mdate) : room'.isAdmin k d = room.isAdmin k d := by
+  induction l generalizing room with
+  | nil => simp only [checkNewAdmins, Except.ok.injEq] at h; rw [h]
+  | cons m rest ih =>
+    unfold checkNewAdmins at h
+    have hrest : ∀ n ∈ rest, isNew old n = true → d < n.mdate := fun n hn => hd n (List.mem_cons_of_mem _ hn)
+    by_cases hnew : isNew old m = true
+    · simp only [hnew, if_true] at h
+      by_cases hadm : room.isAdmin m.author m.mdate = true
+      · simp only [hadm, if_true] at h
+        cases hp : parseUser m with
+        | error e => rw [hp] at h; cases h
+        | ok u =>
+          rw [hp] at h
+          simp only at h
+          cases ha : room.addAdmin u with
+          | error e => rw [ha] at h; simp [liftErr] at h
+          | ok r1 =>
+            rw [ha] at h
+            simp only [liftErr] at h
+            rw [ih h hrest]
+            obtain ⟨l', hl, rfl⟩ := Discret.Room.Room.addAdmin_ok ha
+            have hlt : d < u.date := by rw [parseUser_date hp]; exact hd m List.mem_cons_self hnew
+            simp only [Discret.Room.Room.isAdmin]
+            exact Discret.Room.enabledAt_add_past hl k hlt
+      · simp only [hadm, Bool.false_eq_true, if_false] at h; cases h
+    · simp only [hnew, Bool.false_eq_true, if_false] at h
+      exact ih h hrest
 
 end Discret.RoomNode
